@@ -271,6 +271,15 @@ func CoerceToOctets(arg Object) (result Object) {
 	return
 }
 
+// OctetsOf coerces to octets like CoerceToOctets but gives empty octets, not nil,
+// for nil (the empty list) so that the result can be used as []byte.
+func OctetsOf(arg Object) Octets {
+	if octs, ok := CoerceToOctets(arg).(Octets); ok {
+		return octs
+	}
+	return Octets{}
+}
+
 // CoerceToString coerce to a string or panic.
 func CoerceToString(arg Object) (result Object) {
 	switch ta := arg.(type) {
